@@ -832,7 +832,7 @@ def family_inherit(env, g):
         if not vals:
             env.count("abstain:no valid value")
             return
-        style = rng.choice(["func", "conv", "conv_inh_true", "noinherit"])
+        style = rng.choice(["func", "conv", "conv_inh_true", "noinherit", "lazy", "lazy_noinherit"])
         wit0 = {"program": prog.source, "family": "inherit", "style": style, "U": u.ann()}
         # method / property serializer: inherited by KM2, overridden in KM3
         for cname in ("KM", "KM2", "KM3"):
@@ -856,6 +856,10 @@ def family_inherit(env, g):
             serializer(Conversion(mod.g_plain, source=mod.KI, target=mod.U))
         elif style == "conv_inh_true":
             serializer(Conversion(mod.g_plain, source=mod.KI, target=mod.U, inherited=True))
+        elif style == "lazy":
+            serializer(lazy=lambda: Conversion(mod.g_plain, source=mod.KI, target=mod.U), source=mod.KI)
+        elif style == "lazy_noinherit":
+            serializer(lazy=lambda: Conversion(mod.g_plain, source=mod.KI, target=mod.U, inherited=False), source=mod.KI)
         else:
             serializer(Conversion(mod.g_plain, source=mod.KI, target=mod.U, inherited=False))
         cache.reset()
@@ -866,13 +870,13 @@ def family_inherit(env, g):
         for cname in ("KI", "KI2", "KI3"):
             cls = mod.CLS[cname]
             for sname, mk_t, mk_v, mk_r in rng.sample(shapes, 3):
-                if style == "noinherit" and sname == "opt":
+                if style.endswith("noinherit") and sname == "opt":
                     continue  # an unsupported union alternative is silently dropped
                 a_m = harness.call(serialization_method, mk_t(cls))
                 b_m = harness.call(serialization_method, mk_r(mod.U))
                 env.case("inherit", style, cname, sname, u.sig())
                 feat = {"family": "inherit", "style": style, "subclass_level": cname, "shape": sname}
-                if style == "noinherit" and cname != "KI":
+                if style.endswith("noinherit") and cname != "KI":
                     if a_m.kind == "exc" and a_m.exc == "Unsupported":
                         env.count("inherit_false_unsupported")
                     else:
